@@ -1,6 +1,7 @@
 (* Router/CachedProofs.v — facts about the request path with the cache (C03 / C07 / C12 on cached responses). *)
-From Mos Require Import Base.Prelude Codec.Name Codec.Msg Router.Rules Router.Edns Router.Router Router.RouterSpec
-  Router.RouterProofs Cache.CachePolicy Cache.CachePolicyProofs Router.Prefetch Router.Cached.
+From Mos Require Import Base.Prelude Codec.Name Codec.Msg Codec.NameProofs Codec.WfProofs Router.Rules Router.Edns
+  Router.Router Router.RouterSpec Router.RouterProofs Cache.CachePolicy Cache.CachePolicyProofs Router.Prefetch
+  Router.Cached Cache.CacheKey Cache.CacheKeyProofs.
 From Coq Require Import ZifyN ZifyNat ZifyBool.
 
 (* ---------- SubtractTTL keeps everything but TTLs ---------- *)
@@ -45,7 +46,7 @@ Section CachedFacts.
   (* provenance: every cached message is what [forward] returned for a question and a client with this very key
      (hence OPT-free, with a question section matching that question: [entry_facts]) *)
   Definition entry_ok (k : N) (e : cp_entry) : Prop :=
-    exists u q c, k = ckey q c /\ fst (forward_q ecs up u q c) = Some (e_msg e).
+    exists u q c, wf_question q /\ k = ckey q c /\ fst (forward_q ecs up u q c) = Some (e_msg e).
   Definition cinv (st : cp_state) : Prop := forall k e, cp_find k (st_map st) = Some e -> entry_ok k e.
 
   Lemma cinv_init clk : cinv (init_state clk).
@@ -64,9 +65,9 @@ Section CachedFacts.
   Qed.
 
   Lemma entry_facts k e : entry_ok k e ->
-    count_opt (m_ar (e_msg e)) = 0 /\ exists q c, k = ckey q c /\ qs_match (m_qs (e_msg e)) q.
+    count_opt (m_ar (e_msg e)) = 0 /\ exists q c, wf_question q /\ k = ckey q c /\ qs_match (m_qs (e_msg e)) q.
   Proof.
-    intros (u & q & c & Hk & Hf). destruct (forward_q ecs up u q c) as [o eff] eqn:Ef. cbn [fst] in Hf. subst o.
+    intros (u & q & c & Hwq & Hk & Hf). destruct (forward_q ecs up u q c) as [o eff] eqn:Ef. cbn [fst] in Hf. subst o.
     destruct (forward_ok _ _ _ _ _ Ef) as (Hc & Hq & _). split; [exact Hc|]. exists q, c. auto.
   Qed.
 
@@ -78,10 +79,10 @@ Section CachedFacts.
 
   (* a store of such a message keeps the invariant *)
   Lemma cinv_store st ts eps u q client r :
-    cinv st -> fst (forward_q ecs up u q client) = Some r ->
+    cinv st -> wf_question q -> fst (forward_q ecs up u q client) = Some r ->
     cinv (fst (cachectl_store maxttl st ts eps (ckey q client) (Some r) true)).
   Proof.
-    intros Hi Hsrc. unfold cachectl_store. destruct (h_tc (m_hdr r)); [exact Hi|]. cbn [negb].
+    intros Hi Hwq Hsrc. unfold cachectl_store. destruct (h_tc (m_hdr r)); [exact Hi|]. cbn [negb].
     unfold mem_store. destruct (negative r).
     - destruct (cp_find (ckey q client) (st_map st)); [exact Hi|]. cbn [fst].
       intros k e. cbn [st_map]. rewrite find_put. destruct (k =? ckey q client)%N eqn:Ek.
@@ -111,15 +112,15 @@ Section CachedFacts.
   (* ---------- handleReq with the cache ---------- *)
   (* the response chosen by handleReq is OPT-free, carries a question that matches the one asked (or none), and the
      invariant is kept; a cached response costs no upstream query *)
-  Lemma handle_req_c_facts st t ts eps q client : cinv st ->
-    (forall q1 c1 q2 c2, ckey q1 c1 = ckey q2 c2 -> q1 = q2) ->
+  Lemma handle_req_c_facts st t ts eps q client : cinv st -> wf_question q ->
+    (forall q1 c1 q2 c2, wf_question q1 -> wf_question q2 -> ckey q1 c1 = ckey q2 c2 -> q1 = q2) ->
     let st' := fst (handle_req_c' st t ts eps q client) in
     let o := snd (handle_req_c' st t ts eps q client) in
     cinv st' /\ count_opt (m_ar (co_resp o)) = 0 /\ qs_match (m_qs (co_resp o)) q /\
     (co_cached o = true -> co_eff o = []) /\ length (co_eff o) <= 1 /\
     (co_prefetch o = true -> co_cached o = true).
   Proof.
-    intros Hi Hinj. cbv zeta. unfold handle_req_c.
+    intros Hi Hwq Hinj. cbv zeta. unfold handle_req_c.
     assert (Hloc : forall rc, count_opt (m_ar (empty_resp q rc)) = 0 /\ qs_match (m_qs (empty_resp q rc)) q).
     { intros rc. split; [reflexivity|]. cbn. apply q_eq_ci_refl. }
     assert (Hlocal : forall rc (eff : list effect), length eff <= 1 ->
@@ -141,7 +142,7 @@ Section CachedFacts.
         (co_prefetch (snd res) = true -> co_cached (snd res) = true)).
       { intros o _ _. cbv zeta. destruct (forward_q ecs up u q client) as [[r|] eff] eqn:Ef; cbn [fst snd co_resp co_eff co_cached co_prefetch].
         - destruct (forward_ok _ _ _ _ _ Ef) as (Hc & Hq & He). subst eff.
-          split; [apply (cinv_store st ts eps u q client r Hi); now rewrite Ef|]. split; [exact Hc|]. split; [exact Hq|]. split; [discriminate|].
+          split; [apply (cinv_store st ts eps u q client r Hi Hwq); now rewrite Ef|]. split; [exact Hc|]. split; [exact Hq|]. split; [discriminate|].
           split; [cbn; lia|auto].
         - apply Hlocal. apply (forward_fail_eff _ _ _ _ Ef). }
       destruct og as [| | | | | |m s x]; try (apply (Hmiss _ eq_refl); intros; discriminate).
@@ -149,33 +150,45 @@ Section CachedFacts.
       cbn [fst snd co_resp co_eff co_cached co_prefetch].
       assert (Hs : snd (cachectl_get st t (ckey q client)) = OHit m s x) by now rewrite Eg.
       destruct (get_hit_entry _ _ _ _ _ _ Hs) as (e & Hf & -> & _ & _ & _).
-      destruct (entry_facts _ _ (Hi _ _ Hf)) as (Hc & q0 & c0 & Hk & Hq0). apply Hinj in Hk. subst q0.
+      destruct (entry_facts _ _ (Hi _ _ Hf)) as (Hc & q0 & c0 & Hw0 & Hk & Hq0). apply Hinj in Hk; auto. subst q0.
       split; [exact Hi|]. split; [now rewrite count_opt_subtract|]. split; [rewrite subtract_qs; exact Hq0|].
       split; [reflexivity|]. split; [cbn; lia|reflexivity].
     - cbn [fst snd co_resp co_eff co_cached co_prefetch]. apply Hlocal. cbn; lia.
   Qed.
 
-  Lemma prefetch_c_inv st ts eps u q client : cinv st -> cinv (fst (prefetch_c' st ts eps u q client)).
+  Lemma prefetch_c_inv st ts eps u q client : cinv st -> wf_question q -> cinv (fst (prefetch_c' st ts eps u q client)).
   Proof.
-    intros Hi. unfold prefetch_c. destruct (forward_q ecs up u q client) as [[r|] eff] eqn:Ef; [|exact Hi].
-    cbn [fst]. apply (cinv_store st ts eps u q client r Hi). now rewrite Ef.
+    intros Hi Hwq. unfold prefetch_c. destruct (forward_q ecs up u q client) as [[r|] eff] eqn:Ef; [|exact Hi].
+    cbn [fst]. apply (cinv_store st ts eps u q client r Hi Hwq). now rewrite Ef.
   Qed.
 
   Section WithInj.
-    Hypothesis ckey_inj : forall q1 c1 q2 c2, ckey q1 c1 = ckey q2 c2 -> q1 = q2.
+    (* the key determines the question — for the questions that occur: decoded, hence well-formed (C07_key_injective) *)
+    Hypothesis ckey_inj : forall q1 c1 q2 c2, wf_question q1 -> wf_question q2 -> ckey q1 c1 = ckey q2 c2 -> q1 = q2.
 
-    Lemma handle_c_inv st t ts eps m client : cinv st -> cinv (fst (handle_c' st t ts eps m client)).
+    Lemma first_q_wf m q qs : wf_msg m -> m_qs m = q :: qs -> wf_question (lower_q q).
+    Proof. intros (_ & Fq & _) Hq. rewrite Hq in Fq. apply lower_q_wf. now inversion Fq. Qed.
+
+    Lemma handle_c_inv st t ts eps m client : cinv st -> wf_msg m -> cinv (fst (handle_c' st t ts eps m client)).
     Proof.
-      intros Hi. unfold handle_c. destruct (unsupported m); [exact Hi|]. destruct (m_qs m) as [|q qs]; [exact Hi|].
-      destruct (handle_req_c_facts st t ts eps (lower_q q) client Hi ckey_inj) as (H & _).
+      intros Hi Hwm. unfold handle_c. destruct (unsupported m); [exact Hi|]. destruct (m_qs m) as [|q qs] eqn:Eq; [exact Hi|].
+      destruct (handle_req_c_facts st t ts eps (lower_q q) client Hi (first_q_wf m q qs Hwm Eq) ckey_inj) as (H & _).
       destruct (handle_req_c' st t ts eps (lower_q q) client) as [st' o]. exact H.
     Qed.
 
-    Lemma cstep_inv st ev : cinv st -> cinv (fst (cstep' st ev)).
+    (* the events of a history carry decoded (well-formed) queries / questions *)
+    Definition cev_wf (ev : cev) : Prop :=
+      match ev with
+      | CReq _ _ _ m _ => wf_msg m
+      | CPrefetch _ _ _ q _ => wf_question q
+      | _ => True
+      end.
+
+    Lemma cstep_inv st ev : cinv st -> cev_wf ev -> cinv (fst (cstep' st ev)).
     Proof.
-      intros Hi. destruct ev as [c|t ts eps m client|ts eps u q client|k|k]; cbn [cstep].
+      intros Hi Hw. destruct ev as [c|t ts eps m client|ts eps u q client|k|k]; cbn [cstep]; cbn [cev_wf] in Hw.
       - intros k e. apply Hi.
-      - pose proof (handle_c_inv st t ts eps m client Hi) as H.
+      - pose proof (handle_c_inv st t ts eps m client Hi Hw) as H.
         destruct (handle_c' st t ts eps m client) as [st' o]. exact H.
       - now apply prefetch_c_inv.
       - cbn [cp_step]. destruct (cp_find k (st_map st)) as [e|]; [|exact Hi].
@@ -184,10 +197,10 @@ Section CachedFacts.
     Qed.
 
     (* the invariant holds in every reachable state of the caching proxy *)
-    Theorem crun_inv evs : forall st, cinv st -> cinv (fst (crun' st evs)).
+    Theorem crun_inv evs : Forall cev_wf evs -> forall st, cinv st -> cinv (fst (crun' st evs)).
     Proof.
-      induction evs as [|ev evs IH]; intros st Hi; [exact Hi|]. cbn [crun].
-      pose proof (cstep_inv st ev Hi) as H1. destruct (cstep' st ev) as [st1 o]. cbn [fst] in H1.
+      induction 1 as [|ev evs Hw _ IH]; intros st Hi; [exact Hi|]. cbn [crun].
+      pose proof (cstep_inv st ev Hi Hw) as H1. destruct (cstep' st ev) as [st1 o]. cbn [fst] in H1.
       specialize (IH st1 H1). destruct (crun' st1 evs) as [st2 os]. exact IH.
     Qed.
 
@@ -205,15 +218,15 @@ Section CachedFacts.
     Qed.
 
     (* C12 on a caching proxy: the OPT records of EVERY response — fresh, relayed or served from cache *)
-    Theorem handle_c_opt st t ts eps m client : cinv st ->
+    Theorem handle_c_opt st t ts eps m client : cinv st -> wf_msg m ->
       filter is_opt (m_ar (co_resp (snd (handle_c' st t ts eps m client)))) =
       if unsupported m then [] else if has_opt m then [new_opt udp_size []] else [].
     Proof.
-      intros Hi. destruct (unsupported m) eqn:Hu.
+      intros Hi Hwm. destruct (unsupported m) eqn:Hu.
       - unfold handle_c. rewrite Hu. reflexivity.
       - destruct (handle_c_supported st t ts eps m client Hu) as (q & qs & Hq & ->). cbv zeta. cbn [co_resp].
         rewrite fix_header_ar.
-        destruct (handle_req_c_facts st t ts eps (lower_q q) client Hi ckey_inj) as (_ & Hc & _).
+        destruct (handle_req_c_facts st t ts eps (lower_q q) client Hi (first_q_wf m q qs Hwm Hq) ckey_inj) as (_ & Hc & _).
         destruct (has_opt m).
         + apply add_opt_filter. lia.
         + apply remove_opt_filter. lia.
@@ -228,19 +241,19 @@ Section CachedFacts.
       destruct (handle_req_c' st t ts eps (lower_q q) client) as [st' o]. cbn. auto.
     Qed.
 
-    Theorem handle_c_question st t ts eps m client : cinv st ->
+    Theorem handle_c_question st t ts eps m client : cinv st -> wf_msg m ->
       match m_qs (co_resp (snd (handle_c' st t ts eps m client))), m_qs m with
       | [], _ => True
       | [qr], q :: _ => q_eq_ci qr q = true
       | _, _ => False
       end.
     Proof.
-      intros Hi. destruct (unsupported m) eqn:Hu.
+      intros Hi Hwm. destruct (unsupported m) eqn:Hu.
       - unfold handle_c. rewrite Hu. cbn [snd co_resp fix_header m_qs empty_resp_m].
         destruct (m_qs m) as [|q qs]; cbn [firstn]; [exact I|apply q_eq_ci_refl].
       - destruct (handle_c_supported st t ts eps m client Hu) as (q & qs & Hq & ->). cbv zeta. cbn [co_resp].
         rewrite fix_header_qs, opt_fix_qs, Hq.
-        destruct (handle_req_c_facts st t ts eps (lower_q q) client Hi ckey_inj) as (_ & _ & Hm & _).
+        destruct (handle_req_c_facts st t ts eps (lower_q q) client Hi (first_q_wf m q qs Hwm Hq) ckey_inj) as (_ & _ & Hm & _).
         unfold qs_match in Hm.
         destruct (m_qs (co_resp (snd (handle_req_c' st t ts eps (lower_q q) client)))) as [|qr [|q2 rest]];
           [exact I|now apply q_eq_ci_lower_r|contradiction].
@@ -248,7 +261,7 @@ Section CachedFacts.
 
     (* C07 end to end: a response served from cache is, apart from TTL ageing, the ID / EDNS fix-ups, what [forward]
        returned for the SAME (lower-cased) question, for a client with the same cache key (= the same group) *)
-    Theorem handle_c_hit_source st t ts eps m client : cinv st -> unsupported m = false ->
+    Theorem handle_c_hit_source st t ts eps m client : cinv st -> wf_msg m -> unsupported m = false ->
       co_cached (snd (handle_c' st t ts eps m client)) = true ->
       exists q qs u c r delta,
         m_qs m = q :: qs /\ ckey (lower_q q) c = ckey (lower_q q) client /\
@@ -256,7 +269,7 @@ Section CachedFacts.
         co_resp (snd (handle_c' st t ts eps m client)) =
           fix_header m (let r' := subtract_ttl delta r in if has_opt m then add_or_replace_opt r' else remove_opt r').
     Proof.
-      intros Hi Hu Hc. destruct (handle_c_supported st t ts eps m client Hu) as (q & qs & Hq & E).
+      intros Hi Hwm Hu Hc. destruct (handle_c_supported st t ts eps m client Hu) as (q & qs & Hq & E).
       rewrite E in Hc |- *. cbv zeta in Hc |- *. cbn [co_cached co_resp] in Hc |- *.
       unfold handle_req_c in Hc |- *.
       destruct (decide matches rules (q_name (lower_q q))) as [rc|u0|]; try discriminate.
@@ -265,22 +278,76 @@ Section CachedFacts.
         try (destruct (forward_q ecs up u0 (lower_q q) client) as [[r0|] eff0]; discriminate).
       assert (Hs : snd (cachectl_get st t (ckey (lower_q q) client)) = OHit mm s x) by now rewrite Eg.
       destruct (get_hit_entry _ _ _ _ _ _ Hs) as (e & Hf & -> & _ & _ & _).
-      destruct (Hi _ _ Hf) as (u & q0 & c0 & Hk & Hsrc). pose proof (ckey_inj _ _ _ _ Hk) as Hqq. subst q0.
+      destruct (Hi _ _ Hf) as (u & q0 & c0 & Hw0 & Hk & Hsrc).
+      pose proof (ckey_inj _ _ _ _ Hw0 (first_q_wf m q qs Hwm Hq) (eq_sym Hk)) as Hqq. subst q0.
       exists q, qs, u, c0, (e_msg e), (elapsed_secs t (e_stored e)).
       split; [exact Hq|]. split; [now symmetry|]. split; [exact Hsrc|]. reflexivity.
     Qed.
 
     (* C07 (converse clause) / C19: a response served from the cache costs no upstream exchange on the request path, at
        most one upstream query is made per request, and a prefetch is only ever started by a cache hit *)
-    Theorem handle_c_effects st t ts eps m client : cinv st ->
+    Theorem handle_c_effects st t ts eps m client : cinv st -> wf_msg m ->
       let o := snd (handle_c' st t ts eps m client) in
       (co_cached o = true -> co_eff o = []) /\ length (co_eff o) <= 1 /\ (co_prefetch o = true -> co_cached o = true).
     Proof.
-      intros Hi. cbv zeta. destruct (unsupported m) eqn:Hu.
+      intros Hi Hwm. cbv zeta. destruct (unsupported m) eqn:Hu.
       - unfold handle_c. rewrite Hu. cbn. repeat split; auto; discriminate.
       - destruct (handle_c_supported st t ts eps m client Hu) as (q & qs & Hq & ->). cbv zeta.
         cbn [co_eff co_cached co_prefetch].
-        destruct (handle_req_c_facts st t ts eps (lower_q q) client Hi ckey_inj) as (_ & _ & _ & H1 & H2 & H3). auto.
+        destruct (handle_req_c_facts st t ts eps (lower_q q) client Hi (first_q_wf m q qs Hwm Hq) ckey_inj) as (_ & _ & _ & H1 & H2 & H3). auto.
     Qed.
   End WithInj.
 End CachedFacts.
+
+(* ---------- the REAL cache key: cacheKey(q, ipMark(client)) as a number ---------- *)
+(* CachePolicy's backend is keyed by numbers; the real key is an octet string.  [key_num] reads an octet string as a
+   base-256 numeral behind a leading 1, which is injective on octet strings; composed with cacheKey (injective on
+   well-formed questions and any marks: cache_key_injective) it determines the question. *)
+Definition key_num (l : list N) : N := fold_left (fun acc b => (acc * 256 + b)%N) l 1%N.
+
+Lemma key_num_snoc l b : key_num (l ++ [b]) = (key_num l * 256 + b)%N.
+Proof. unfold key_num. now rewrite fold_left_app. Qed.
+
+Lemma key_num_pos l : (1 <= key_num l)%N.
+Proof.
+  induction l as [|b l IH] using rev_ind; [cbn; lia|]. rewrite key_num_snoc. lia.
+Qed.
+
+Lemma key_num_inj a : bytes a -> forall b, bytes b -> key_num a = key_num b -> a = b.
+Proof.
+  induction a as [|x a IH] using rev_ind; intros Ha b Hb E.
+  - destruct b as [|y b] using rev_ind; [reflexivity|]. exfalso.
+    rewrite key_num_snoc in E. cbn in E. pose proof (key_num_pos b). lia.
+  - destruct b as [|y b _] using rev_ind.
+    + exfalso. rewrite key_num_snoc in E. cbn in E. pose proof (key_num_pos a). lia.
+    + rewrite !key_num_snoc in E. apply Forall_app in Ha. destruct Ha as [Ha Hx]. apply Forall_app in Hb. destruct Hb as [Hb Hy].
+      inversion Hx as [|? ? Hx' _]; subst. inversion Hy as [|? ? Hy' _]; subst. unfold isbyte in Hx', Hy'.
+      assert (key_num a = key_num b /\ x = y) as [E1 ->] by lia.
+      now rewrite (IH Ha b Hb E1).
+Qed.
+
+Definition real_ckey (mark : addr -> list N) (q : question) (c : addr) : N :=
+  key_num (cache_key (q_name q) (q_class q) (q_type q) (mark c)).
+
+Lemma real_ckey_inj mark : (forall c, bytes (mark c)) ->
+  forall q1 c1 q2 c2, wf_question q1 -> wf_question q2 -> real_ckey mark q1 c1 = real_ckey mark q2 c2 -> q1 = q2.
+Proof.
+  intros Hm q1 c1 q2 c2 (Hn1 & Ht1 & Hc1) (Hn2 & Ht2 & Hc2) E. unfold real_ckey in E.
+  assert (Hb : forall q c, wf_name (q_name q) -> bytes (cache_key (q_name q) (q_class q) (q_type q) (mark c))).
+  { intros q c (ls & -> & Hf & _). unfold cache_key. apply Forall_app. split; [now apply raw_bytes|].
+    constructor; [unfold isbyte; lia|]. apply Forall_app. split; [apply be16_bytes|]. apply Forall_app. split; [apply be16_bytes|apply Hm]. }
+  apply key_num_inj in E; auto.
+  apply cache_key_injective in E; auto. destruct E as (En & Ec & Et & _).
+  destruct q1, q2; cbn in *; congruence.
+Qed.
+
+(* ... and, for one question, the client's group label *)
+Lemma real_ckey_mark mark : (forall c, bytes (mark c)) ->
+  forall q c1 c2, wf_question q -> real_ckey mark q c1 = real_ckey mark q c2 -> mark c1 = mark c2.
+Proof.
+  intros Hm q c1 c2 (Hn & Ht & Hc) E. unfold real_ckey in E.
+  assert (Hb : forall c, bytes (cache_key (q_name q) (q_class q) (q_type q) (mark c))).
+  { intros c. destruct Hn as (ls & -> & Hf & _). unfold cache_key. apply Forall_app. split; [now apply raw_bytes|].
+    constructor; [unfold isbyte; lia|]. apply Forall_app. split; [apply be16_bytes|]. apply Forall_app. split; [apply be16_bytes|apply Hm]. }
+  apply key_num_inj in E; auto. apply cache_key_injective in E; auto. tauto.
+Qed.
